@@ -160,7 +160,12 @@ Nud(B, P, t) ==
       [] ty = "variable" -> LET U == Utf8Text(Txt(B, t)) IN IF U.ok THEN POk([k |-> "VariableCps", s |-> U.s], P) ELSE PAbst(P)
       [] ty \in {"name", "and", "or", "in"} -> LET U == Utf8Text(Txt(B, t)) IN IF U.ok THEN POk([k |-> "Name", s |-> U.s, esc |-> FALSE], P) ELSE PAbst(P)
       [] ty = "nameesc" -> LET U == Utf8Text(Txt(B, t)) IN IF U.ok THEN POk([k |-> "Name", s |-> U.s, esc |-> TRUE], P) ELSE PAbst(P)
-      [] ty = "regex" -> PAbst(P)
+      \* a regex literal: /pattern/flags; the pattern text handed to the engine is "(?flags)pattern";
+      \* an empty pattern is a compile error; whether a non-empty pattern is valid is the engine's say
+      [] ty = "regex" -> LET U == Utf8Text(Txt(B, t))  Fl == Slice(B, t.fs, t.fe) IN
+                         IF ~U.ok THEN PAbst(P)
+                         ELSE IF U.s = <<>> THEN PErr(P)
+                         ELSE POk([k |-> "Regex", s |-> (IF Fl = <<>> THEN <<>> ELSE <<40, 63>> \o Fl \o <<41>>) \o U.s], P)
       [] ty = "*" -> POk([k |-> "Wildcard"], P)
       [] ty = "**" -> POk([k |-> "Descendent"], P)
       [] ty = "-" -> LET E == ParseExpr(B, P, 60) IN IF E.err THEN E ELSE POk([k |-> "Negation", e |-> E.node], E.P)
@@ -251,7 +256,7 @@ OptPairs(ps) == LET Ks == OptSeq([i \in 1..Len(ps) |-> ps[i][1]], 1, <<>>)
 Opt2(n, mk(_, _)) == LET A == Opt(n.l)  Bb == Opt(n.r) IN IF ~A.ok \/ ~Bb.ok THEN OErr ELSE OOk(mk(A.n, Bb.n))
 \* names cannot be converted back to strings for non-ASCII; variables keep code points in the harness comparison too
 Opt(n) ==
-    CASE n.k \in {"String", "Number", "Boolean", "Null", "Wildcard", "Descendent", "Placeholder", "None"} -> OOk(n)
+    CASE n.k \in {"String", "Number", "Boolean", "Null", "Wildcard", "Descendent", "Placeholder", "None", "Regex"} -> OOk(n)
       [] n.k = "VariableCps" -> OOk([k |-> "Variable", s |-> n.s])
       [] n.k = "Name" -> OOk([k |-> "Path", steps |-> <<n>>, keep |-> FALSE])
       [] n.k = "Negation" -> LET A == Opt(n.e) IN
